@@ -172,18 +172,14 @@ def replay_req_history(model, params, role):
 REPS = "socket::rep_socket::RepSocket"
 
 
-def rep_history(h):
-    """RepSocket::{recv, send} (coroutine MIR) on a hand-assembled socket with two peers (connections A, B), the real
-    AddressedIngressEngine and RCVTIMEO = 0. All histories of k operations from {a request from A arrives, a request
-    from B arrives, recv, send}. Successful operations alternate recv, send, ...; a refused call is InvalidState and
-    changes nothing; every reply goes to the connection whose request was received last, with that request's
-    routing prefix in front."""
+def _rep_socket(h, k):
+    """RepSocket assembled field by field over the real AddressedIngressEngine with two connections; the peers' send_multipart
+    is a hook that records (connection, tags of the wire frames, MORE flags of the wire frames)"""
     from .d_c09 import Fut
     from .d_c02 import _mk_msg, _tag
-    from .d_c07 import _frames
+    from .d_c07 import _frames, _flag
     from ..models import some, none, ok, err, dur_ns, _deref, MapV
     prog = h.it.prog
-    k = h.params.get("ops", 4)
     AIE2 = "socket::patterns::addressed_ingress::AddressedIngressEngine"
     PMS = "socket::patterns::ready_pipe_queue::PipeMessageSender"
     eng = Ref(Cell(h.method(AIE2, "new", max(4, k)), "ingress"), ())
@@ -221,12 +217,14 @@ def rep_history(h):
             vals[f] = Agg("{amutex}", [False, UNIT]) if "Mutex" in str(ftypes.get(f, "")) else Opaque(f)
     sock = Ref(Cell(Agg(REPS, [vals[f] for f in fields]), "rep"), ())
     sent = []            # (peer, [tags of the wire frames])
+    sent_flags = []      # MORE flags of the same frames
     DYN = "<dyn socket::connection_iface::ISocketConnection as socket::connection_iface::ISocketConnection>::"
     def conn_send(it, args, dty, func):
         p = _deref(args[0])
         while isinstance(p, BoxV):
             p = _deref(p.load())
         sent.append((p.f[0], [_tag(m) for m in _frames(args[1])]))
+        sent_flags.append([bool(_flag(m, 1)) for m in _frames(args[1])])
         return Agg("{future}", ["peer_send"])
     h.it.hooks[DYN + "send_multipart"] = conn_send
     def extern(it, plain, args, dty, func):
@@ -241,6 +239,24 @@ def rep_history(h):
             return args[0]
         return NotImplemented
     h.it.extern = extern
+    return dict(sock=sock, eng=eng, snd=snd, fields=fields, sent=sent, flags=sent_flags)
+
+
+def rep_history(h):
+    """RepSocket::{recv, send} (coroutine MIR) on a hand-assembled socket with two peers (connections A, B), the real
+    AddressedIngressEngine and RCVTIMEO = 0. All histories of k operations from {a request from A arrives, a request
+    from B arrives, recv, send}. Successful operations alternate recv, send, ...; a refused call is InvalidState and
+    changes nothing; every reply goes to the connection whose request was received last, with that request's
+    routing prefix in front."""
+    from .d_c09 import Fut
+    from .d_c02 import _mk_msg, _tag
+    from .d_c07 import _frames
+    from ..models import some, none, ok, err, dur_ns, _deref, MapV
+    prog = h.it.prog
+    k = h.params.get("ops", 4)
+    rs = _rep_socket(h, k)
+    sock, eng, snd, fields, sent = rs["sock"], rs["eng"], rs["snd"], rs["fields"], rs["sent"]
+    PMS = "socket::patterns::ready_pipe_queue::PipeMessageSender"
     h.panic_role = "c10.rep-history"
     def state_name():
         return sock.load().f[fields.index("state")].f[0].vname
@@ -312,3 +328,69 @@ def rep_history(h):
                 h.check(last_ok == "recv", "c10.rep-history.send-without-preceding-recv")
                 last_ok = "send"
         h.check(state_name() == ("ReceivedRequest" if pending is not None else "ReadyToReceive"), "c10.rep-history.state-differs-from-reference", f"{state_name()} pending={pending}")
+
+
+def rep_reply_flags(h):
+    """C02 on the REP reply path: a request of every envelope shape (0..1 routing-prefix frames, the empty delimiter,
+    0..2 body frames - i.e. also a request that ends with the delimiter) is received, then the application replies
+    with send(msg) or send_multipart(1..3 frames) whose MORE flags are arbitrary. What is handed to the connection
+    must be: the request's routing prefix, the delimiter, the reply frames - in that order, with MORE on every frame
+    but the last."""
+    from .d_c09 import Fut
+    from .d_c02 import _mk_msg, _tag
+    from .d_c07 import _frames
+    from ..models import some, none, ok, err, dur_ns, _deref, MapV
+    prog = h.it.prog
+    rs = _rep_socket(h, 4)
+    sock, eng, snd, fields, sent, flags = rs["sock"], rs["eng"], rs["snd"], rs["fields"], rs["sent"], rs["flags"]
+    PMS = "socket::patterns::ready_pipe_queue::PipeMessageSender"
+    from_bits = prog.body(h.it.resolve_fn("message::flags::_::<impl message::flags::MsgFlags>::from_bits_retain", ""))
+    h.panic_role = "c02.rep-reply"
+    n_prefix = h.choose(2, "routing_prefix_frames")
+    n_body = h.choose(3, "request_body_frames")
+    fb = Ref(Cell(h.method("message::FrameBatch", "new"), "fb"), ())
+    prefix = []
+    for i in range(n_prefix):
+        h.method("message::FrameBatch", "push", fb, _mk_msg(h, 0xE0 + i, True))
+        prefix.append(0xE0 + i)
+    d0 = Ref(Cell(h.method("message::msg::Msg", "new"), "delim"), ())
+    h.method("message::msg::Msg", "set_flags", d0, h.it.run_body(from_bits, [1 if n_body > 0 else 0]))
+    h.method("message::FrameBatch", "push", fb, d0.load())
+    for i in range(n_body):
+        h.method("message::FrameBatch", "push", fb, _mk_msg(h, 0x30 + i, i + 1 < n_body))
+    h.check(h.method(PMS, "try_send_sync", snd[0], fb.load()).idx == 0, "c02.rep-reply.setup-enqueue")
+    f = Fut(h, REPS, "recv_multipart", [sock], trait="ISocket")
+    r = f.poll()
+    h.check(r is not None and r.idx == 0, "c02.rep-reply.setup-request-not-received", "pending" if r is None else repr(r)[:100])
+    if r is None or r.idx != 0:
+        return
+    got = [_tag(m) for m in _frames(r.f[0])]
+    h.check([g for g in got if g is not None] == [0x30 + i for i in range(n_body)], "c02.rep-reply.request-body-differs", str(got))
+    single = h.choose(2, "reply_with") == 0
+    if single:
+        more = h.choose(2, "reply_more_flag") == 1
+        reply = [0x90]
+        f2 = Fut(h, REPS, "send", [sock, _mk_msg(h, 0x90, more)], trait="ISocket")
+        # REP (like REQ) treats every send() as one complete single-frame message: a MORE flag on it is cleared
+    else:
+        n_reply = 1 + h.choose(3, "reply_frames")
+        rb = Ref(Cell(h.method("message::FrameBatch", "new"), "rb"), ())
+        reply = []
+        for i in range(n_reply):
+            h.method("message::FrameBatch", "push", rb, _mk_msg(h, 0x90 + i, h.choose(2, f"reply_more{i}") == 1))
+            reply.append(0x90 + i)
+        f2 = Fut(h, REPS, "send_multipart", [sock, rb.load()], trait="ISocket")
+    n0 = len(sent)
+    r2 = f2.poll()
+    h.check(r2 is not None and r2.idx == 0, "c02.rep-reply.reply-refused", "pending" if r2 is None else repr(r2)[:100])
+    if r2 is None or r2.idx != 0:
+        return
+    wire = [t for _, ts in sent[n0:] for t in ts]
+    wflags = [b for fl in flags[n0:] for b in fl]
+    h.check(len(sent) - n0 == 1, "c02.rep-reply.reply-handed-over-in-several-pieces", f"{len(sent) - n0} hand-overs: a reply must reach the connection as one unit")
+    h.check(wire == prefix + [None] + reply, "c02.rep-reply.wire-frames-differ-from-prefix-delimiter-reply",
+            f"wire {wire}, expected {prefix + [None] + reply}")
+    h.check(wflags == [True] * (len(wire) - 1) + [False], "c02.rep-reply.more-flags-wrong-on-the-wire",
+            f"request = {n_prefix} prefix frame(s) + delimiter + {n_body} body frame(s); wire MORE flags {wflags}: the peer sees the reply split into {wflags[:-1].count(False) + 1} messages")
+    h.cover("c02.rep-reply.envelope-only-request", n_body == 0)
+    h.cover("c02.rep-reply.multi-frame-reply", len(reply) > 1)
